@@ -42,7 +42,7 @@ EXPLANATION = ("Every case is executed by the real goakt code under the cooperat
 
 REPO = os.environ.get("VERIF_REPO", "/repo")
 
-FACTS = {
+SRC_FACTS = {
     "fact singleflight-field": ("actor/actor_system.go", r"grainActivation\s+singleflight\.Group"),
     "fact singleflight-do": ("actor/grain_engine.go", r"func \(x \*actorSystem\) runGrainActivation\(id string, fn func\(\) \(\*grainPID, error\)\) \(\*grainPID, error\) \{(?s:.*?)x\.grainActivation\.Do\(id, func\(\) \(any, error\) \{\s*return fn\(\)"),
     "fact ensure-in-flight": ("actor/grain_engine.go", r"func \(x \*actorSystem\) ensureGrainProcess\((?s:.*?)return x\.runGrainActivation\(key, func\(\) \(\*grainPID, error\) \{"),
@@ -83,7 +83,7 @@ def _case(rng, nn=None, deact=None):
 
 def gen_cases(rng, tier):
     n = 260 if tier == "quick" else 6000
-    return list(FACTS) + [_case(rng) for _ in range(n)]
+    return list(SRC_FACTS) + [_case(rng) for _ in range(n)]
 
 
 def search_cases(rng, tier):
@@ -93,8 +93,8 @@ def search_cases(rng, tier):
 
 
 def compare(case, impl, model):
-    if case in FACTS:
-        rel, pat = FACTS[case]
+    if case in SRC_FACTS:
+        rel, pat = SRC_FACTS[case]
         try:
             src = open(os.path.join(REPO, rel)).read()
         except OSError as e:
@@ -115,7 +115,7 @@ def _digest(impl):
 
 
 def oracle(case, impl, judge):
-    if case in FACTS:
+    if case in SRC_FACTS:
         return None
     if impl.startswith("CRASH") or impl.startswith("panic"):
         return "harness crashed: " + impl[:200]
@@ -170,7 +170,7 @@ def is_trivial(case, impl):
 
 
 def tag(case, impl):
-    if case in FACTS:
+    if case in SRC_FACTS:
         return "fact"
     f = case.split("|")[0].split()
     nodes = f[2:]
